@@ -509,13 +509,16 @@ def gen_case(seed, profile='edit'):
     nbase = rng.randint(7, 12) if profile == 'query' else rng.randint(4, 8 if profile == 'value' else 7)
     names = BASE_NAMES[:nbase]
     tvar = names.index('time') if 'time' in names else nbase - 1
+    # the model's own id: sometimes equal to the display name of a variable (clash path of add_cmeta_id)
+    mcmeta = rng.choice(['mid', 'c__a', 'c__x', 'time', 'c__b', 'c__y', 'k__g']) if rng.random() < (0.6 if profile == 'annot' else 0.3) else None
+    mcmeta_ = mcmeta
     base = []
     used_c = set()
     for i, n in enumerate(names):
         c = None
         if rng.random() < 0.3:
             c = rng.choice(CMETAS)
-            if c in used_c or c == 'mid':
+            if c in used_c or c == 'mid' or c == mcmeta_:
                 c = None
             else:
                 used_c.add(c)
@@ -523,7 +526,6 @@ def gen_case(seed, profile='edit'):
         if profile == 'value' and rng.random() < 0.9:
             init = rng.choice(['1', '0', '2.5', '-3', '0.5'])
         base.append([n, c, init])
-    mcmeta = 'mid' if rng.random() < 0.3 else None
     qcount = [0]
     pool = []
     # a well-formed core: one definition per variable (except time), referring to earlier variables, states and time
@@ -573,7 +575,9 @@ def gen_case(seed, profile='edit'):
     for _ in range(nops):
         k = rng.choice(kinds)
         if k == 'addeq':
-            ops.append(['addeq', rng.randrange(npool), (rng.random() < 0.9) if profile == 'edit' else True])
+            # check_duplicates=False is the library's internal switch (convert_variable over-defines a state on purpose);
+            # asking for a duplicate definition through it is outside the property (DESIGN section 11)
+            ops.append(['addeq', rng.randrange(npool), True])
         elif k == 'rmeq':
             ops.append(['rmeq', rng.randrange(npool)])
         elif k == 'rmvar':
